@@ -43,7 +43,7 @@ def run_tlc(workdir, module, cfg, *, workers=None, timeout=600, simulate=None, d
     Returns TlcResult; raises Broken on timeout / JVM failure / parse errors."""
     stage(workdir, extra_files)
     meta = os.path.join(workdir, "meta-" + out_name)
-    java = ["java", "-XX:+UseParallelGC", "-Xmx" + heap, "-Xss256m"]
+    java = ["java", "-XX:+UseParallelGC", "-Xmx" + heap, "-Xss256m", "-Dfile.encoding=UTF-8"]
     if dfs:
         java.append("-Dtlc2.tool.queue.IStateQueue=StateDeque")
     for k, v in (defines or {}).items():
